@@ -176,6 +176,21 @@ BAD_COLOURS = ['#ff', '#ffff', '#fffff', '#fffffff', '#ggg', 'ff0000', '#', 'rgb
                'rgb()', 'rgb(1.5,2,3)', 'rgb(a,b,c)', 'rgb(1,2,3)x', 'rgb (1,2,3)', 'reddish', 're d', 'red red', 'redd', 'gren', 'color', '#fff #fff', 'rgb(1px,2,3)']
 URIS = ['url(x)', 'url("x")', "url('x')", 'url( x )', 'URL(x)', 'Url("X")', 'url(a/b.png?q=1#f)', 'url("a b")', 'url(http://example.com/i.png)', 'url()', 'url("")']
 BAD_URIS = ['url', 'url(', 'url x', '"x"', 'x.png', 'uri(x)', 'url(x) url(y)', 'url(x),url(y)', 'url(a b)', 'url(x)y', 'url (x)', 'url(x")', 'src(x)', 'url(a(b)']
+
+
+def precision_numbers():
+    """unsigned decimal numbers at the edges of a number-rewriting serialiser (cssutils prints non-integral numbers with '%f', six decimals,
+    and strips padding zeros; the rewritten text is what gets validated): the first non-zero decimal in place 6, 7 and 8, a 7th decimal that
+    rounds the 6th up, all-nines that round up into the integer part, more than six significant decimals, padding zeros beyond place 6, six
+    and seven zeros only (integral), a fraction below double precision; integer part 1 throughout, 0 and absent for the one that vanishes"""
+    fractions = ['000001', '0000001', '00000001', '0000005', '9999999', '1234567', '5000000', '000000', '0000000', '00000000000000000001']
+    return ['1.' + f for f in fractions] + ['0.0000001', '.0000001', '0.0000006', '12345678.5']
+
+
+PRECISION = precision_numbers()
+NUMBERS += PRECISION + ['-1.0000001']
+LENGTHS += [p + 'px' for p in PRECISION] + ['0.0000001em', '-1.0000001px', '1.0000001IN']
+PERCENTAGES += [p + '%' for p in PRECISION] + ['-1.0000001%']
 MISC = ['', '"auto"', "'none'", 'auto()', 'inherit inherit', 'initial', 'unset', '!important', 'attr(x)', 'calc(1px + 2px)', 'counter(x)', 'a,b', '-', '--', '_', '0 0', '*', '{', '}', ';', ':']
 
 
@@ -376,7 +391,9 @@ def registry(ctx):
         ctx.known_finding(kid, True)
     ctx.bounded.append({'name': 'registry verdicts vs CSS 2.1 grammar table', 'evaluations': n, 'distinct_nontrivial': len(kinds), 'exhaustive': True,
                         'rule': f'{len(G)} simple CSS 2.1 properties x (own keywords in three cases + near misses of them + all recombinations of their hyphen-separated parts and their prefixes/suffixes + every keyword of every other property + '
-                                'typed literals and near misses of integer/number/length/percentage/colour/URI + non-ASCII look-alikes), on cssutils.profile and on a '
+                                'typed literals and near misses of integer/number/length/percentage/colour/URI, among them ' + str(len(PRECISION)) + ' numbers at the edges of six-decimal rewriting '
+                                '(first non-zero decimal in place 6/7/8, round-up into place 6 and into the integer part, padding beyond place 6, a fraction below double precision), '
+                                'bare, as px and as % + non-ASCII look-alikes), on cssutils.profile and on a '
                                 'fresh registry reduced to the CSS 2.1 profile; distinct = (property, oracle verdict, own/foreign value)',
                         'samples': samples, 'bound': 'complete over the value pools'})
 
@@ -538,9 +555,6 @@ ORIGINS = ('constructed', 'value_assigned', 'set_property', 'item', 'attribute',
 
 def _spelling_class(kind, base, text):
     """recorded classes of spelling-dependence"""
-    m = _FUNC.match(text)
-    if m and m.group(1) != m.group(1).lower() and kind in ('upper', 'altcase'):
-        return 'C13-function-name-case'
     if kind in ('func-comment', 'func-comment-arg'):
         return 'C13-comment-in-function'
     return None
@@ -643,9 +657,10 @@ def _sweep(args):
                     break
             n += 1
             if got_rt != got:
-                bad('bounded: verdict is the same after a serialise-reparse round trip', f'{name}: {v!r} -> {before!r}: {got} then {got_rt}', inputs)
+                bad('bounded: verdict is the same after a serialise-reparse round trip', f'{name}: {v!r} -> {before!r}: {got} then {got_rt}', inputs,
+                    _roundtrip_class(v, got, got_rt))
             if sheet2.cssText != before:
-                bad('bounded: serialised declaration is a fixpoint', f'{name}: {v!r} -> {before!r} -> {sheet2.cssText!r}', inputs)
+                bad('bounded: serialised declaration is a fixpoint', f'{name}: {v!r} -> {before!r} -> {sheet2.cssText!r}', inputs, _roundtrip_class(v))
             # spellings, parsed in a sheet
             sp = spellings(v)
             light = quick and want is False and not got  # an invalid value judged invalid: fewer respellings in the quick tier
@@ -677,7 +692,7 @@ def _sweep(args):
                     g3 = V._of_style(rt.cssRules[0].style, name)[0] if rt.cssRules.length and getattr(rt.cssRules[0], 'style', None) is not None else False
                     if g3 != g2:
                         bad('bounded: verdict is the same after a serialise-reparse round trip', f'{name}: {text!r} -> {sh2.cssText!r}: {g2} then {g3}',
-                            {'name': name, 'value': text})
+                            {'name': name, 'value': text}, _roundtrip_class(v, g2, g3))
             # origins
             for text, kind in ((v, 'base'),) if light else ((v, 'base'), (aupper(v), 'upper'), ('/*a*/ ' + v + ' /*b*/', 'comment-both')):
                 for origin in ORIGINS:
@@ -694,11 +709,36 @@ def _sweep(args):
 def _property_only_class(name, v, got, stored):
     g = G[name]
     # the value is validated after the serialiser normalised it: 1.0 becomes the integer 1, 0px becomes the number 0
+    if got and _rounds_to_integer(v):
+        # ... and (since 9ef9492 writes a number as the value its six decimals denote) 0.0000001 becomes 0, 1.9999999 becomes 2
+        return 'C13-validates-normalised-text'
     if got and 'length' not in g['types']:
-        if 'integer' in g['types'] and 'number' not in g['types'] and re.fullmatch(r'[+-]?[0-9]*\.0+', v):
-            return 'C13-validates-normalised-text'
+        if 'integer' in g['types'] and 'number' not in g['types'] and re.fullmatch(r'[+-]?[0-9]*\.[0-9]+', v) and float(v) == int(float(v)):
+            return 'C13-validates-normalised-text'  # the fraction is all zeros, or is lost when the number is held as a double
         if ('integer' in g['types'] or 'number' in g['types']) and re.fullmatch(_ZERO + _UNIT, v, A):
             return 'C13-validates-normalised-text'
+    return None
+
+
+_SINGLE_NUMERIC = re.compile(r'([+-]?(?:[0-9]+|[0-9]*\.[0-9]+))(%|[a-z]+)?', A)
+
+
+def _rounds_to_integer(v):
+    """class of C13-rounds-to-integer: the value is one number / dimension / percentage whose number is not integral but is closer than
+    0.0000005 to an integer (written from the statement of the defect, not from the serialiser: exact decimal arithmetic)"""
+    from decimal import Decimal
+    m = _SINGLE_NUMERIC.fullmatch(v)
+    if not m:
+        return False
+    x = Decimal(m.group(1))
+    d = abs(x - x.to_integral_value())
+    return 0 < d < Decimal('0.0000005') and float(m.group(1)) != int(float(m.group(1)))
+
+
+def _roundtrip_class(v, first=None, second=None):
+    """recorded class for the two round-trip clauses: fixpoint (first is None) and verdict (only a change from invalid to valid)"""
+    if _rounds_to_integer(v) and (first is None or (first is False and second is True)):
+        return 'C13-rounds-to-integer'
     return None
 
 
@@ -725,7 +765,7 @@ def _collect_sweep(ctx, results, quick):
         ctx.known_finding(kid, True)
     ctx.bounded.append({'name': 'Property.valid: grammar, spellings, origins, round trip, validate on/off', 'evaluations': n, 'distinct_nontrivial': len(kinds),
                         'exhaustive': not quick,
-                        'rule': f'{len(G)} properties x (own-grammar values, near misses and keyword-part recombinations; ' + ('a seeded sample of 30' if quick else 'all') + ' foreign values) x '
+                        'rule': f'{len(G)} properties x (own-grammar values incl. the {len(PRECISION)} six-decimal edge numbers per numeric type, near misses and keyword-part recombinations; ' + ('a seeded sample of 30' if quick else 'all') + ' foreign values) x '
                                 '(parsed in a sheet with validate on and off; 11-15 respellings: case, white space, comments, !important, name case, function-internal '
                                 f'white space and comments; serialise-reparse; {len(ORIGINS)} other ways to create the property x 3 spellings); distinct = (property, oracle verdict, observed verdict)',
                         'samples': [{'name': 'width', 'value': '1PX', 'spelling': '/*a*/ 1PX /*b*/'}], 'bound': 'value pools as in the registry check'})
@@ -777,7 +817,10 @@ def unknown_names(ctx):
 
 
 # ---- 4. conjunction upwards, validate flag at every level, valid-only output
-DECLS = [('color', 'red', True), ('color', '1px', False), ('width', '10px', True), ('width', 'blue', False), ('zzz', '1', False), ('top', 'auto !important', True)]
+DECLS = [('color', 'red', True), ('color', '1px', False), ('width', '10px', True), ('width', 'blue', False), ('zzz', '1', False), ('top', 'auto !important', True),
+         # the same names again so that a block can hold an invalid declaration that does not win inside the block: spelled in another letter
+         # case, or without the priority of its rival
+         ('COLOR', '1px', False), ('top', 'red', False)]
 FF_DECLS = [('font-style', 'italic', True), ('font-style', 'inherit', False), ('font-weight', '700', True), ('font-weight', 'bolder', False), ('color', 'red', False),
             ('zzz', '1', False)]
 
@@ -786,16 +829,19 @@ def _block_text(block):
     return '; '.join(f'{n_}: {v}' for n_, v, _ in block)
 
 
-def _overridden_only(block):
-    """class of C13-valid-ignores-overridden: the block has an invalid declaration, but for every name the declaration that wins inside the
-    block (the last one among those with the highest priority) is valid"""
-    winners = {}
-    for d in block:
-        imp = 'important' in d[1]
-        cur = winners.get(d[0])
-        if cur is None or imp >= cur[0]:
-            winners[d[0]] = (imp, d[2])
-    return any(not d[2] for d in block) and all(ok for _, ok in winners.values())
+def _has_loser(block):
+    """the block holds two declarations of one (case-normalised) name, so one of them does not win inside the block (coverage only)"""
+    names = [alower(d[0]) for d in block]
+    return len(set(names)) < len(names)
+
+
+def _dom_built(css, block):
+    """the same block built through the DOM, declaration by declaration, nothing replaced"""
+    st = css.CSSStyleDeclaration()
+    for name, text, _ in block:
+        value, _, prio = text.partition('!')
+        st.setProperty(name, value.strip(), prio.strip(), replace=False)
+    return st
 
 
 def conjunction(ctx):
@@ -817,7 +863,7 @@ def conjunction(ctx):
             for block in itertools.product(DECLS, repeat=L):
                 text = 'a { ' + _block_text(block) + ' }'
                 want = all(d[2] for d in block)
-                kid = 'C13-valid-ignores-overridden' if (not want and _overridden_only(block)) else None
+                kid = None
                 sheets = [('parseString', cssutils.parseString(text)), ('parseString validate=False', cssutils.parseString(text, validate=False)),
                           ('CSSParser(validate=False)', cssutils.CSSParser(validate=False).parseString(text))]
                 texts = set()
@@ -842,7 +888,12 @@ def conjunction(ctx):
                 n += len(styles)
                 if len({s.cssText for s in styles}) > 1:
                     ctx.violation('bounded: cssText is the same with validation on and off', f'declaration block {btext!r}', True, {'css': btext})
-                for s in styles:
+                dom = _dom_built(css, block)
+                n += 1
+                if [(p.name, p.value, p.priority) for p in dom.getProperties(all=True)] != [(p.name, p.value, p.priority) for p in styles[0].getProperties(all=True)]:
+                    ctx.violation('bounded: a block built through the DOM with replace=False holds the same declarations as the parsed one', f'{btext!r}: {dom.cssText!r}', True,
+                                  {'css': btext})
+                for s in styles + [dom]:
                     judge('bounded: a declaration block is valid iff all its declarations are', s.valid, want, btext, kid)
                 # sheet.validating toggled after the fact
                 sheet = sheets[0][1]
@@ -863,9 +914,9 @@ def conjunction(ctx):
                 n += 1
                 if kept != want_kept:
                     ctx.violation('bounded: valid-only output keeps exactly the valid declarations', f'{text!r}: {kept!r} expected {want_kept!r}', True, {'css': text})
-                kinds.add((L, want, kid))
+                kinds.add((L, want, _has_loser(block)))
         # several rules and nested rules
-        small = [()] + [(d,) for d in DECLS] + [(DECLS[1], DECLS[0]), (DECLS[0], DECLS[3])]
+        small = [()] + [(d,) for d in DECLS[:6]] + [(DECLS[1], DECLS[0]), (DECLS[0], DECLS[3]), (DECLS[5], DECLS[7])]
         wrappers = [('a { %s }', None), ('@media print { b { %s } }', 'C13-valid-skips-media-page'), ('@page { %s }', 'C13-valid-skips-media-page'),
                     ('@media print { @page { %s } }', 'C13-valid-skips-media-page')]
         for (w1, k1), (w2, k2) in itertools.product(wrappers, repeat=2):
@@ -874,10 +925,9 @@ def conjunction(ctx):
                 want = all(d[2] for d in b1 + b2)
                 kid = None
                 if not want:
-                    # recorded classes: all invalid declarations are overridden in their block, or sit in @media/@page
-                    excused = all((k is not None) or _overridden_only(b) for b, k in ((b1, k1), (b2, k2)) if not all(d[2] for d in b))
-                    if excused:
-                        kid = 'C13-valid-skips-media-page' if any(k for b, k in ((b1, k1), (b2, k2)) if not all(d[2] for d in b)) else 'C13-valid-ignores-overridden'
+                    # recorded class: every invalid declaration of the sheet sits in @media/@page
+                    if all(k is not None for b, k in ((b1, k1), (b2, k2)) if not all(d[2] for d in b)):
+                        kid = 'C13-valid-skips-media-page'
                 sheet = cssutils.parseString(text)
                 n += 1
                 judge('bounded: a sheet is valid iff all its declarations are', sheet.valid, want, text, kid)
@@ -904,8 +954,10 @@ def conjunction(ctx):
     for kid in sorted(wit):
         ctx.known_finding(kid, True)
     ctx.bounded.append({'name': 'conjunction upwards / validate flag / valid-only output', 'evaluations': n, 'distinct_nontrivial': len(kinds), 'exhaustive': True,
-                        'rule': f'all declaration blocks of length <= {maxlen} over {len(DECLS)} declarations (valid, invalid, unknown name, !important, same name twice) parsed with '
-                                'validation on/off at parser, sheet and declaration level; all pairs of 9 small blocks in style / @media / @page / nested wrappers; '
+                        'rule': f'all declaration blocks of length <= {maxlen} over {len(DECLS)} declarations (valid, invalid, unknown name, !important; every name that can be judged '
+                                'occurs valid and invalid, so a block can hold an invalid declaration that loses inside the block to a later one, to an !important one, or to one '
+                                'spelled in another letter case) parsed with validation on/off at parser, sheet and declaration level and built through the DOM with replace=False; '
+                                f'all pairs of {len(small)} small blocks in style / @media / @page / nested wrappers; '
                                 f'all @font-face blocks of length <= 2 over {len(FF_DECLS)} descriptors',
                         'samples': [{'css': 'a { color: 1px; color: red }'}], 'bound': f'blocks of <= {maxlen} declarations, sheets of 2 rules'})
 
